@@ -71,7 +71,7 @@ def judge(ctx):
                 break
 
 
-CFG = G.cfg(blocks=("cross", "cross", "multi"))
+CFG = G.cfg(blocks=("cross", "cross", "multi", "repeat", "merge", "nest"))
 P = D.DesignProperty(
     "C16", judge,
     rule=("case = generated design spec accepted by the constructor for which the documentation fixes the trial count "
